@@ -895,6 +895,8 @@ def ck11(p, res):
             continue
         checked_paths = 0
         bad = None
+        bad12 = None
+        n12 = 0
         for path in paths:
             flow = sc.PathFlow(f, path, transparent=T + ("to_mut", "to_ref"))
             sym = Sym(f, sc.PathFlow(f, path))
@@ -928,6 +930,7 @@ def ck11(p, res):
                 continue
             # metadata stored on this path: the last store to dst.meta.log_budget, or the budget of the operand whose meta() was copied wholesale
             bud = None
+            dlt = None
             copied_from = None  # operand whose meta() was copied into dst before the final budget store (dst.log_budget() then reads that operand's budget)
             for b in path:
                 for st in f.blocks[b]["s"]:
@@ -936,6 +939,8 @@ def ck11(p, res):
                         continue
                     if len(mf) == 2 and mf[1] == "log_budget" and st[2]["k"] == "Use":
                         bud = sym.operand(st[2]["o"][0])
+                    elif len(mf) == 2 and mf[1] == "log_delta" and st[2]["k"] == "Use":
+                        dlt = sym.operand(st[2]["o"][0])
                     elif len(mf) == 1 and st[2]["k"] == "Use":
                         v = sym.operand(st[2]["o"][0])
                         at = list(v.atoms())
@@ -958,6 +963,8 @@ def ck11(p, res):
                 continue
             conds = [sc.norm_cond(k, t) for k, t in sc.path_conditions(f, g, path, sym)]
             checked_paths += 1
+            if dlt is not None:
+                n12 += 1
             good = 0
             for val in pwl.valuations(count=1500):
                 ev = pwl.Eval(p, val)
@@ -987,6 +994,14 @@ def ck11(p, res):
                             break
                         if sx + rb != bx and bad is None:
                             bad = {"operand": f.param_names().get(X), "shift": sx, "result_log_budget": rb, "operand_log_budget": bx}
+                    # CK-12: the result does not claim a finer scaling precision than any operand it is computed from (the in-place forms read dst itself)
+                    if ok and dlt is not None:
+                        rd = ev.poly(dlt)
+                        ops = list(reads) + ([dst] if f.name.replace("_default", "").endswith(("_assign", "_assign_unsafe")) and copied_from is None else [])
+                        for X in ops:
+                            dx = ev.atom(("f", "log_delta", (Poly.atom(("p", X, ())).key(),)))
+                            if rd > dx and bad12 is None:
+                                bad12 = {"operand": f.param_names().get(X), "result_log_delta": rd, "operand_log_delta": dx}
                     if ok:
                         good += 1
                 except pwl.ErrPath:
@@ -1001,6 +1016,14 @@ def ck11(p, res):
                     site=f.where(), detail=bad)
         else:
             res.ok("CK-11", {"fn": f.pretty, "paths": checked_paths})
+        if "CK-12" in res.rules and n12:
+            if bad12:
+                res.bad("CK-12", f.pretty, "log-delta-exceeds-operand:%s" % bad12["operand"],
+                        "%s stores log_delta = %d while operand `%s` has log_delta = %d: a sum / difference is not more precise than its coarsest operand; with the stored log_budget "
+                        "the result claims log_delta + log_budget beyond what its limbs hold (the out-of-place sibling stores the minimum)"
+                        % (f.pretty, bad12["result_log_delta"], bad12["operand"], bad12["operand_log_delta"]), site=f.where(), detail=bad12)
+            else:
+                res.ok("CK-12", {"fn": f.pretty, "paths": n12})
     return n
 
 
@@ -1010,6 +1033,7 @@ def run(res, tier):
                        "same values, key lookups and checked arithmetic never unwrapped, destination metadata defined on every success return of out-of-place operations (interprocedural "
                        "summary), and equality fast paths consistent with the ordering branches that follow them. Slot values, error magnitudes and the numeric invariant "
                        "log_delta + log_budget <= max_k are not decided.")
+    res.rule("CK-12", "value-preserving operations store a log_delta that does not exceed the log_delta of any operand they read (in-place forms: of dst itself too)")
     res.rule("CK-1", "stores to CKKS `meta` and from_inner(..) occur only in poulpy_ckks::{leveled::default, layouts, leveled::delegates::{composite,encryption}, encoding}")
     res.rule("CK-2", "usize `a - b` on budget/precision values is dominated by a comparison establishing a >= b over the same value numbers")
     res.rule("CK-3", "get_automorphism_key / checked_* / ensure_* results are never unwrapped; the key lookup result reaches an error path")
